@@ -12,7 +12,7 @@ EVID = os.path.join(ROOT, "evidence")
 REPLAYS = os.path.join(ROOT, "replays")
 FINDINGS = os.path.join(ROOT, "known_findings.json")
 
-RECURSION_LIMIT = 30000
+RECURSION_LIMIT = 3000
 
 
 def disable_expr_traces():
